@@ -360,6 +360,30 @@ pub fn run_batch(prop: &str, seed: u64, from: u64, to: u64, workers: u64, hashes
     Ok(total)
 }
 
+/// Event-log hash of `run` when executed after runs from..run in one process, and alone.
+pub fn process_history_pair(prop: &str, seed: u64, from: u64, run: u64) -> Option<(u64, u64)> {
+    let seq = run_batch(prop, seed, from, run + 1, 1, true).ok()?;
+    let alone = run_batch(prop, seed, run, run + 1, 1, true).ok()?;
+    Some((*seq.hashes.get(&run)?, *alone.hashes.get(&run)?))
+}
+
+/// Smallest power-of-two window of predecessors that still changes the run's event log.
+pub fn process_history_window(prop: &str, seed: u64, run: u64) -> Option<(u64, u64, u64)> {
+    let mut back = 1u64;
+    loop {
+        let from = run.saturating_sub(back);
+        if let Some((a, b)) = process_history_pair(prop, seed, from, run) {
+            if a != b {
+                return Some((from, a, b));
+            }
+        }
+        if from == 0 {
+            return None;
+        }
+        back *= 2;
+    }
+}
+
 pub fn ncpu() -> u64 {
     std::env::var("DNSSIM_WORKERS")
         .ok()
@@ -423,10 +447,27 @@ pub fn cmd_minimise(input: &str, output: &str) -> i32 {
 
 pub fn replay_value(prop: &str, lane: &str, scenario: &Value, verbose: bool) -> Result<Option<crate::exec::Violation>, String> {
     match lane {
-        "N" => lanes::replay_lane_n(scenario, verbose),
+        "N" => lanes::replay_lane_n(prop, scenario, verbose),
         "C" => crate::lane_c::replay(scenario, verbose),
         "T" => crate::lane_t::replay(prop, scenario, verbose),
         "M" => crate::miri::replay(prop, scenario),
+        "P" => {
+            let seed = scenario["seed"].as_u64().unwrap_or(1);
+            let from = scenario["from"].as_u64().unwrap_or(0);
+            let run = scenario["run"].as_u64().unwrap_or(0);
+            match process_history_pair(prop, seed, from, run) {
+                Some((a, b)) if a != b => Ok(Some(crate::exec::Violation {
+                    props: vec!["C17"],
+                    clause: "result-depends-on-process-history".into(),
+                    op: "run-sequence".into(),
+                    key: String::new(),
+                    detail: format!("run {} logs {:016x} after runs {}.. in the same process but {:016x} alone", run, a, from, b),
+                    step: 0,
+                })),
+                Some(_) => Ok(None),
+                None => Err("could not execute the run sequence".into()),
+            }
+        }
         _ => Err(format!("unknown lane {}", lane)),
     }
 }
@@ -510,13 +551,9 @@ pub fn cmd_check(prop: &str, tier: &str, seed: u64) -> i32 {
             det_mismatch += 1;
         }
     }
-    if det_mismatch > 0 {
-        eprintln!(
-            "harness error: determinism self-check failed ({} of {} runs hashed differently across process layouts)",
-            det_mismatch, dn
-        );
-        return 2;
-    }
+    // A mismatch is reported only after the exploration: if the library itself has become
+    // history-dependent (what C17 forbids) the exploration will say so with a replayable case,
+    // and that verdict must not be masked by a harness-error exit.
     // ---- exploration
     let agg = match run_batch(prop, seed, 0, runs, workers, false) {
         Ok(a) => a,
@@ -648,6 +685,43 @@ pub fn cmd_check(prop: &str, tier: &str, seed: u64) -> i32 {
                                 println!("VIOLATION property={} replay={}", prop, path2);
                                 replay_path = path2;
                                 exit = 1;
+                            } else if prop == "C17" {
+                                // the outcome depended on what the worker's thread had processed
+                                // in *earlier runs*: replay the run sequence instead
+                                let r = pick["run"].as_u64().unwrap_or(0);
+                                match process_history_window(prop, seed, r) {
+                                    Some((from, h_seq, h_alone)) => {
+                                        let v = crate::exec::Violation {
+                                            props: vec!["C17"],
+                                            clause: "result-depends-on-process-history".into(),
+                                            op: "run-sequence".into(),
+                                            key: String::new(),
+                                            detail: format!(
+                                                "{} [run {} logs {:016x} after runs {}.. in the same process but {:016x} in a fresh process]",
+                                                pick["violation"]["detail"].as_str().unwrap_or(""), r, h_seq, from, h_alone
+                                            ),
+                                            step: 0,
+                                        };
+                                        let doc = json!({"run": r, "seed": seed, "lane": "P", "violation": lanes::violation_json(&v),
+                                                         "scenario": {"seed": seed, "from": from, "run": r}});
+                                        match write_replay(prop, &doc, None, 0) {
+                                            Ok(path3) => {
+                                                println!("violation: {}", v.detail);
+                                                println!("VIOLATION property={} replay={}", prop, path3);
+                                                replay_path = path3;
+                                                exit = 1;
+                                            }
+                                            Err(e) => {
+                                                eprintln!("harness error: {}", e);
+                                                exit = 2;
+                                            }
+                                        }
+                                    }
+                                    None => {
+                                        eprintln!("harness error: a violation was seen but neither its scenario nor its run sequence reproduces it ({})", path2);
+                                        exit = 2;
+                                    }
+                                }
                             } else {
                                 eprintln!("harness error: a violation was seen but its replay file does not reproduce it ({})", path2);
                                 exit = 2;
@@ -697,6 +771,46 @@ pub fn cmd_check(prop: &str, tier: &str, seed: u64) -> i32 {
                 }
             }
         }
+    }
+    // C17 only: the same run giving a different event log depending on which runs the same
+    // process executed before it is, by definition, a result that depends on earlier calls.
+    if prop == "C17" && det_mismatch > 0 && exit == 0 {
+        let r = d1
+            .hashes
+            .iter()
+            .find(|(r, h)| d2.hashes.get(r) != Some(h))
+            .map(|(r, _)| *r);
+        if let Some(r) = r {
+            if let Some((from, h_seq, h_alone)) = process_history_window(prop, seed, r) {
+                let v = crate::exec::Violation {
+                    props: vec!["C17"],
+                    clause: "result-depends-on-process-history".into(),
+                    op: "run-sequence".into(),
+                    key: String::new(),
+                    detail: format!(
+                        "run {} produces event log {:016x} when the same process first executes runs {}..{} and {:016x} when it starts fresh: some library result depends on earlier calls",
+                        r, h_seq, from, r, h_alone
+                    ),
+                    step: 0,
+                };
+                let doc = json!({"run": r, "seed": seed, "lane": "P", "violation": lanes::violation_json(&v),
+                                 "scenario": {"seed": seed, "from": from, "run": r}});
+                if let Ok(path) = write_replay(prop, &doc, None, 0) {
+                    println!("violation: {}", v.detail);
+                    println!("VIOLATION property={} replay={}", prop, path);
+                    replay_path = path;
+                    violations_reported += 1;
+                    exit = 1;
+                }
+            }
+        }
+    }
+    if det_mismatch > 0 && exit == 0 {
+        eprintln!(
+            "harness error: determinism self-check failed ({} of {} runs hashed differently across process layouts) and no violation explains it",
+            det_mismatch, dn
+        );
+        exit = 2;
     }
     if agg.executed > 0 && agg.rejected * 2 > agg.executed {
         eprintln!(
